@@ -130,6 +130,12 @@ type bucketData struct {
 	name         string
 	lastModified time.Time
 	versionID    gofakes3.VersionID
+
+	// versioned is true if the item was created while versioning was enabled
+	// for the bucket. Such a version is only ever removed by deleting that
+	// specific version; anything else is a "null" version, which the next
+	// write or delete made while versioning is not enabled replaces.
+	versioned bool
 	deleteMarker bool
 	body         []byte
 	hash         []byte
@@ -229,15 +235,18 @@ func (b *bucket) put(name string, item *bucketData) {
 		b.objects.Set(name, object)
 	}
 
-	if b.versioning == gofakes3.VersioningEnabled {
-		if object.data != nil {
-			if object.versions == nil {
-				object.versions = skiplist.NewCustomMap(func(l, r interface{}) bool {
-					return l.(gofakes3.VersionID) < r.(gofakes3.VersionID)
-				})
-			}
-			object.versions.Set(object.data.versionID, object.data)
+	item.versioned = b.versioning == gofakes3.VersioningEnabled
+
+	// The current version is kept as a noncurrent version if versioning is
+	// enabled, and also if versioning is suspended but the current version
+	// dates from when it was enabled; only a "null" version is overwritten.
+	if object.data != nil && (item.versioned || object.data.versioned) {
+		if object.versions == nil {
+			object.versions = skiplist.NewCustomMap(func(l, r interface{}) bool {
+				return l.(gofakes3.VersionID) < r.(gofakes3.VersionID)
+			})
 		}
+		object.versions.Set(object.data.versionID, object.data)
 	}
 
 	object.data = item
@@ -256,11 +265,16 @@ func (b *bucket) rm(name string, at time.Time) (result gofakes3.ObjectDeleteResu
 		result.IsDeleteMarker = true
 		result.VersionID = item.versionID
 
+	} else if b.versioning == gofakes3.VersioningSuspended {
+		// With versioning suspended S3 replaces the "null" version, if there
+		// is one, with a "null" delete marker; versions created while
+		// versioning was enabled stay. put() does exactly that.
+		item := &bucketData{lastModified: at, name: name, deleteMarker: true}
+		b.put(name, item)
+		result.IsDeleteMarker = true
+
 	} else {
-		object.data = nil
-		if object.versions == nil || object.versions.Len() == 0 {
-			b.objects.Delete(name)
-		}
+		b.objects.Delete(name)
 	}
 
 	return result, nil
